@@ -3,6 +3,10 @@
 import json, subprocess
 
 CHECKS = {
+ "C18": ("exploration",
+         "Multi-party simulation: sender, 1..4 key recipients over all pool encryption algorithms (locked/unlocked, addressed/anonymous), 0..3 password recipients over S2K kinds, outsiders with unrelated keys and passwords, a decoy stub that re-addresses one PKESK; every recipient alone, recipients mixed with outsiders in both orders, candidate-password lists for locked keys, v6 passwords among unrelated ones, outsiders / wrong password / wrong session key (no plaintext byte, Err by the end of the read), and the cross-check mode with conflicting session keys (must be reported). One recorded known finding (several SKESK v4 packets).",
+         "5 (C18)", "SKESK v4 with decoy passwords excluded by the property itself; MDC/AEAD unforgeable",
+         "deterministic multi-party simulation with byzantine decoy stub"),
  "C07": ("exploration",
          "Key generation driven from the RNG seam (one stream per run, first octets of fill_bytes biased to 0x00/0xFF in half of the runs) and the clock seam (extremes and jumps) over both key versions, ten primary algorithms, thirteen subkey kinds incl. signing subkeys, locked/unlocked primaries and subkeys, 0..3 user ids, preference lists; per key: verify_bindings (secret and public), embedded back signatures, binary and armored export through sink schedules and import through source schedules (equality, fingerprint, key id), flags/preferences/features read back, every signing key signs and verifies (and does not verify under another key), every encryption subkey decrypts SEIPDv1 and SEIPDv2 messages.",
          "5 (C07)", "builder-refused shapes skipped; RSA/DSA sampled far less than the cheap algorithms",
